@@ -7,29 +7,15 @@ package main
 // R2 byte-order threading.  R3 code/type/flag tables.  R4 hex wraps the same bytes.
 
 import (
-	"fmt"
 	"go/ast"
 	"go/token"
 	"go/types"
-	"sort"
-	"strings"
-
-	"golang.org/x/tools/go/ssa"
 )
 
 func init() { register("C05", true, checkC05) }
 
 var wkbCodes = map[string]int64{"Point": 1, "LineString": 2, "Polygon": 3, "MultiPoint": 4, "MultiLineString": 5, "MultiPolygon": 6, "GeometryCollection": 7}
 var wkbMember = map[string]string{"MultiPoint": "Point", "MultiLineString": "LineString", "MultiPolygon": "Polygon", "GeometryCollection": "Geom"}
-
-func wkbTypeNames() []string {
-	var ns []string
-	for n := range wkbCodes {
-		ns = append(ns, n)
-	}
-	sort.Slice(ns, func(i, j int) bool { return wkbCodes[ns[i]] < wkbCodes[ns[j]] })
-	return ns
-}
 
 type c05 struct {
 	c       *Ctx
@@ -66,357 +52,9 @@ func checkC05(c *Ctx) {
 	c.Floor("C05.R4", 2)
 }
 
-func isByteOrderType(t types.Type) bool { return isNamed(t, "encoding/binary", "ByteOrder") }
-
-func isBinaryRW(f *types.Func, name string) bool { return isFuncIn(f, "encoding/binary", name) }
-
 // ---------------------------------------------------------------- R3 tables
 
-// geomTypeName: "Point" for geom.Point etc.; "Geom" for the interface; "" otherwise.
-func geomTypeName(t types.Type) string {
-	n, ok := types.Unalias(t).(*types.Named)
-	if !ok || n.Obj().Pkg() == nil || n.Obj().Pkg().Path() != modPath {
-		return ""
-	}
-	return n.Obj().Name()
-}
-
-func (a *c05) tables() {
-	c := a.c
-	wfd := c.P.Decl(a.write)
-	// (1) writer code table: type switch assigning a constant to a uint32 variable
-	codeOf := map[string]int64{}
-	var codePos token.Pos
-	ast.Inspect(wfd.Body, func(n ast.Node) bool {
-		sw, ok := n.(*ast.TypeSwitchStmt)
-		if !ok {
-			return true
-		}
-		_, cls := typeSwitch(a.info, sw)
-		for _, cl := range cls {
-			if len(cl.Clause.Body) != 1 {
-				continue
-			}
-			as, ok := cl.Clause.Body[0].(*ast.AssignStmt)
-			if !ok || len(as.Rhs) != 1 {
-				continue
-			}
-			k, ok := constInt(a.info, as.Rhs[0])
-			if !ok {
-				continue
-			}
-			for _, t := range cl.Types {
-				if t != nil {
-					if tn := geomTypeName(t); tn != "" {
-						codeOf[tn] = k
-						codePos = sw.Pos()
-					}
-				}
-			}
-		}
-		return true
-	})
-	for _, tn := range wkbTypeNames() {
-		cons := "encoding/wkb.Write#code(" + tn + ")"
-		got, ok := codeOf[tn]
-		switch {
-		case !ok:
-			c.Bad("C05.R3", cons, codePos, "no type code is assigned for geom.%s", tn)
-		case got != wkbCodes[tn]:
-			c.Bad("C05.R3", cons, codePos, "geom.%s is written with type code %d, OGC code is %d", tn, got, wkbCodes[tn])
-		default:
-			c.OK("C05.R3", cons, codePos, "code %d", got)
-		}
-	}
-	for tn := range codeOf {
-		if _, ok := wkbCodes[tn]; !ok {
-			c.Bad("C05.R3", "encoding/wkb.Write#code("+tn+")", codePos, "geom.%s has no OGC 2-D WKB code but is given one", tn)
-		}
-	}
-	// (2) reader registry from init(): m[const] = fn
-	for _, f := range pk(c, "encoding/wkb").Syntax {
-		for _, d := range f.Decls {
-			fd, ok := d.(*ast.FuncDecl)
-			if !ok || fd.Name.Name != "init" || fd.Recv != nil {
-				continue
-			}
-			ast.Inspect(fd.Body, func(n ast.Node) bool {
-				as, ok := n.(*ast.AssignStmt)
-				if !ok || len(as.Lhs) != 1 || len(as.Rhs) != 1 {
-					return true
-				}
-				ix, ok := unparen(as.Lhs[0]).(*ast.IndexExpr)
-				if !ok {
-					return true
-				}
-				k, ok := constInt(a.info, ix.Index)
-				fn, _ := objOf(a.info, as.Rhs[0]).(*types.Func)
-				if ok && fn != nil {
-					if prev, dup := a.readers[k]; dup && prev != fn {
-						c.Bad("C05.R3", fmt.Sprintf("encoding/wkb#reader(%d)", k), as.Pos(), "type code %d is registered twice", k)
-					}
-					a.readers[k] = fn
-				}
-				return true
-			})
-		}
-	}
-	// also accept a composite-literal registry
-	if len(a.readers) == 0 {
-		for _, f := range pk(c, "encoding/wkb").Syntax {
-			ast.Inspect(f, func(n ast.Node) bool {
-				cl, ok := n.(*ast.CompositeLit)
-				if !ok {
-					return true
-				}
-				if _, isMap := a.info.TypeOf(cl).Underlying().(*types.Map); !isMap {
-					return true
-				}
-				for _, el := range cl.Elts {
-					kv, ok := el.(*ast.KeyValueExpr)
-					if !ok {
-						continue
-					}
-					k, ok := constInt(a.info, kv.Key)
-					fn, _ := objOf(a.info, kv.Value).(*types.Func)
-					if ok && fn != nil {
-						a.readers[k] = fn
-					}
-				}
-				return true
-			})
-		}
-	}
-	for _, tn := range wkbTypeNames() {
-		code := wkbCodes[tn]
-		cons := fmt.Sprintf("encoding/wkb#reader(%d)", code)
-		fn := a.readers[code]
-		if fn == nil {
-			c.Bad("C05.R3", cons, token.NoPos, "no reader is registered for OGC type code %d (%s)", code, tn)
-			continue
-		}
-		// concrete type returned: dynamic type of the MakeInterface at non-error returns
-		sf := c.P.SSAFunc(fn)
-		ret := map[string]bool{}
-		if sf != nil {
-			for _, b := range sf.Blocks {
-				for _, in := range b.Instrs {
-					r, ok := in.(*ssa.Return)
-					if !ok || len(r.Results) < 1 {
-						continue
-					}
-					switch v := r.Results[0].(type) {
-					case *ssa.MakeInterface:
-						ret[geomTypeName(v.X.Type())] = true
-					case *ssa.Const:
-						// nil (error path)
-					default:
-						ret["?"] = true
-					}
-				}
-			}
-		}
-		var got []string
-		for k := range ret {
-			got = append(got, k)
-		}
-		sort.Strings(got)
-		if len(got) == 1 && got[0] == tn {
-			c.OK("C05.R3", cons, c.P.Decl(fn).Pos(), "%s returns geom.%s", fn.Name(), tn)
-		} else {
-			c.Bad("C05.R3", cons, c.P.Decl(fn).Pos(), "the reader registered for code %d (%s) returns %v, want geom.%s", code, fn.Name(), got, tn)
-		}
-		// member type asserted
-		if want, isMulti := wkbMember[tn]; isMulti {
-			mcons := fmt.Sprintf("encoding/wkb#member(%d)", code)
-			fd := c.P.Decl(fn)
-			var asserted []string
-			ast.Inspect(fd.Body, func(n ast.Node) bool {
-				if ta, ok := n.(*ast.TypeAssertExpr); ok && ta.Type != nil {
-					asserted = append(asserted, geomTypeName(a.info.TypeOf(ta.Type)))
-				}
-				return true
-			})
-			switch {
-			case len(asserted) == 1 && asserted[0] == want:
-				c.OK("C05.R3", mcons, fd.Pos(), "members asserted to geom.%s", want)
-			case len(asserted) == 0 && want == "Geom":
-				c.OK("C05.R3", mcons, fd.Pos(), "members of any geometry type")
-			default:
-				c.Bad("C05.R3", mcons, fd.Pos(), "members of a %s are asserted to %v, want geom.%s", tn, asserted, want)
-			}
-		}
-	}
-	for k, fn := range a.readers {
-		known := false
-		for _, code := range wkbCodes {
-			if code == k {
-				known = true
-			}
-		}
-		if !known {
-			c.Bad("C05.R3", fmt.Sprintf("encoding/wkb#reader(%d)", k), c.P.Decl(fn).Pos(), "a reader is registered for type code %d, which is not a 2-D OGC code this package can write", k)
-		}
-	}
-	a.flagTables()
-}
-
 func pk(c *Ctx, short string) *pkgT { return c.P.Pkg(short) }
-
-// flagTables: Write: switch order {case XDR: flag=0; case NDR: flag=1; default: error};
-// Read: switch flag {case 0: order=BigEndian; case 1: order=LittleEndian; default: error}.
-func (a *c05) flagTables() {
-	c := a.c
-	orderName := func(e ast.Expr) string {
-		e = unparen(e)
-		// binary.BigEndian / binary.LittleEndian, or package vars initialised with them
-		if sel, ok := e.(*ast.SelectorExpr); ok {
-			if v, ok := a.info.Uses[sel.Sel].(*types.Var); ok && v.Pkg() != nil && v.Pkg().Path() == "encoding/binary" {
-				return v.Name()
-			}
-		}
-		if v, ok := objOf(a.info, e).(*types.Var); ok && v.Pkg() != nil && v.Parent() == v.Pkg().Scope() {
-			// package-level var: find its initialiser
-			for _, f := range pk(c, "encoding/wkb").Syntax {
-				for _, d := range f.Decls {
-					gd, ok := d.(*ast.GenDecl)
-					if !ok {
-						continue
-					}
-					for _, sp := range gd.Specs {
-						vs, ok := sp.(*ast.ValueSpec)
-						if !ok {
-							continue
-						}
-						for i, nm := range vs.Names {
-							if a.info.Defs[nm] == v && i < len(vs.Values) {
-								if sel, ok := unparen(vs.Values[i]).(*ast.SelectorExpr); ok {
-									if bv, ok := a.info.Uses[sel.Sel].(*types.Var); ok && bv.Pkg() != nil && bv.Pkg().Path() == "encoding/binary" {
-										// must not be reassigned anywhere
-										return bv.Name()
-									}
-								}
-							}
-						}
-					}
-				}
-			}
-		}
-		return ""
-	}
-	want := map[string]int64{"BigEndian": 0, "LittleEndian": 1}
-	// writer direction
-	wfd := c.P.Decl(a.write)
-	var orderParam types.Object
-	for _, p := range paramVars(a.info, wfd.Type) {
-		if p != nil && isByteOrderType(p.Type()) {
-			orderParam = p
-		}
-	}
-	found := false
-	ast.Inspect(wfd.Body, func(n ast.Node) bool {
-		sw, ok := n.(*ast.SwitchStmt)
-		if !ok || sw.Tag == nil || objOf(a.info, sw.Tag) != orderParam || orderParam == nil {
-			return true
-		}
-		found = true
-		got := map[string]int64{}
-		defaultErr := false
-		for _, cl := range sw.Body.List {
-			cc := cl.(*ast.CaseClause)
-			if cc.List == nil {
-				for _, s := range cc.Body {
-					if r, ok := s.(*ast.ReturnStmt); ok && len(r.Results) == 1 && !isNilConst(a.info, r.Results[0]) {
-						defaultErr = true
-					}
-				}
-				continue
-			}
-			if len(cc.Body) == 1 {
-				if as, ok := cc.Body[0].(*ast.AssignStmt); ok && len(as.Rhs) == 1 {
-					if k, ok := constInt(a.info, as.Rhs[0]); ok {
-						for _, e := range cc.List {
-							if nm := orderName(e); nm != "" {
-								got[nm] = k
-							}
-						}
-					}
-				}
-			}
-		}
-		ok2 := defaultErr && len(got) == 2
-		for k, v := range want {
-			if got[k] != v {
-				ok2 = false
-			}
-		}
-		if ok2 {
-			c.OK("C05.R3", "encoding/wkb.Write#flag", sw.Pos(), "BigEndian→0, LittleEndian→1, other orders rejected")
-		} else {
-			c.Bad("C05.R3", "encoding/wkb.Write#flag", sw.Pos(), "byte-order flag table is %v (default is error: %v), OGC is BigEndian→0, LittleEndian→1 and nothing else", got, defaultErr)
-		}
-		return true
-	})
-	if !found {
-		c.Unk("C05.R3", "encoding/wkb.Write#flag", wfd.Pos(), "switch on the byte-order argument not found")
-	}
-	// reader direction
-	rfd := c.P.Decl(a.read)
-	found = false
-	ast.Inspect(rfd.Body, func(n ast.Node) bool {
-		sw, ok := n.(*ast.SwitchStmt)
-		if !ok || sw.Tag == nil {
-			return true
-		}
-		tv := objOf(a.info, sw.Tag)
-		if tv == nil {
-			return true
-		}
-		if b, ok := tv.Type().Underlying().(*types.Basic); !ok || b.Kind() != types.Uint8 {
-			return true
-		}
-		found = true
-		got := map[string]int64{}
-		defaultErr := false
-		for _, cl := range sw.Body.List {
-			cc := cl.(*ast.CaseClause)
-			if cc.List == nil {
-				for _, s := range cc.Body {
-					if r, ok := s.(*ast.ReturnStmt); ok && len(r.Results) == 2 && !isNilConst(a.info, r.Results[1]) {
-						defaultErr = true
-					}
-				}
-				continue
-			}
-			if len(cc.Body) == 1 {
-				if as, ok := cc.Body[0].(*ast.AssignStmt); ok && len(as.Rhs) == 1 {
-					if nm := orderName(as.Rhs[0]); nm != "" {
-						for _, e := range cc.List {
-							if k, ok := constInt(a.info, e); ok {
-								got[nm] = k
-							}
-						}
-					}
-				}
-			}
-		}
-		ok2 := defaultErr && len(got) == 2
-		for k, v := range want {
-			if got[k] != v {
-				ok2 = false
-			}
-		}
-		if ok2 {
-			c.OK("C05.R3", "encoding/wkb.Read#flag", sw.Pos(), "0→BigEndian, 1→LittleEndian, other flags rejected")
-		} else {
-			c.Bad("C05.R3", "encoding/wkb.Read#flag", sw.Pos(), "byte-order flag table is %v (default is error: %v), OGC is 0→BigEndian, 1→LittleEndian and nothing else", got, defaultErr)
-		}
-		return true
-	})
-	if !found {
-		c.Unk("C05.R3", "encoding/wkb.Read#flag", rfd.Pos(), "switch on the flag byte not found")
-	}
-}
 
 // ---------------------------------------------------------------- R1 writers
 
@@ -427,327 +65,10 @@ type wnode struct {
 	sub  []*wnode
 }
 
-func (n *wnode) String() string {
-	switch n.kind {
-	case "REPEAT":
-		var ss []string
-		for _, s := range n.sub {
-			ss = append(ss, s.String())
-		}
-		return "REPEAT(" + n.of + "){" + strings.Join(ss, " ") + "}"
-	case "U8", "CODE":
-		return n.kind
-	}
-	return n.kind + "(" + n.of + ")"
-}
-
-func treeString(ns []*wnode) string {
-	var ss []string
-	for _, n := range ns {
-		ss = append(ss, n.String())
-	}
-	return strings.Join(ss, " ")
-}
-
 type wenv struct {
 	paths map[types.Object]string // variable → data path
 	typ   types.Type              // dynamic type assumed for the interface-typed data parameter (Write)
 	data  types.Object            // the interface-typed data parameter
-}
-
-// callFromStmt extracts CALL from `if err := CALL; err != nil {return err}`,
-// `return CALL`, or `err := CALL` / `err = CALL` followed by a check.
-func (a *c05) emitCall(st ast.Stmt) *ast.CallExpr {
-	switch s := st.(type) {
-	case *ast.IfStmt:
-		if s.Init != nil {
-			if as, ok := s.Init.(*ast.AssignStmt); ok && len(as.Rhs) == 1 {
-				if call, ok := unparen(as.Rhs[0]).(*ast.CallExpr); ok {
-					return call
-				}
-			}
-		}
-	case *ast.ReturnStmt:
-		if len(s.Results) == 1 {
-			if call, ok := unparen(s.Results[0]).(*ast.CallExpr); ok {
-				return call
-			}
-		}
-	case *ast.AssignStmt:
-		if len(s.Rhs) == 1 {
-			if call, ok := unparen(s.Rhs[0]).(*ast.CallExpr); ok {
-				return call
-			}
-		}
-	case *ast.ExprStmt:
-		if call, ok := unparen(s.X).(*ast.CallExpr); ok {
-			return call
-		}
-	}
-	return nil
-}
-
-func (a *c05) pathOf(env *wenv, e ast.Expr) string {
-	e = unparen(e)
-	if u, ok := e.(*ast.UnaryExpr); ok && u.Op == token.AND {
-		e = unparen(u.X)
-	}
-	// conversions and assertions keep the data
-	for {
-		switch x := e.(type) {
-		case *ast.CallExpr:
-			if tv, ok := a.info.Types[x.Fun]; ok && tv.IsType() && len(x.Args) == 1 {
-				e = unparen(x.Args[0])
-				continue
-			}
-		case *ast.TypeAssertExpr:
-			e = unparen(x.X)
-			continue
-		}
-		break
-	}
-	if o := objOf(a.info, e); o != nil {
-		if p, ok := env.paths[o]; ok {
-			return p
-		}
-	}
-	return ""
-}
-
-func isPointT(t types.Type) bool {
-	if p, ok := t.(*types.Pointer); ok {
-		t = p.Elem()
-	}
-	return geomTypeName(t) == "Point"
-}
-
-func isPointsT(t types.Type) bool {
-	if p, ok := t.(*types.Pointer); ok {
-		t = p.Elem()
-	}
-	s, ok := t.Underlying().(*types.Slice)
-	return ok && geomTypeName(s.Elem()) == "Point"
-}
-
-// writerTree extracts the emission sequence of a writer function body.
-func (a *c05) writerTree(fn *types.Func, env *wenv, depth int) []*wnode {
-	fd := a.c.P.Decl(fn)
-	if fd == nil || depth > 6 {
-		a.undec = "cannot follow " + fn.Name()
-		return nil
-	}
-	return a.writerStmts(fd.Body.List, env, depth)
-}
-
-func (a *c05) writerStmts(list []ast.Stmt, env *wenv, depth int) []*wnode {
-	var out []*wnode
-	for _, st := range list {
-		switch s := st.(type) {
-		case *ast.DeclStmt:
-			continue
-		case *ast.SwitchStmt:
-			// the byte-order flag switch (R3): emits nothing
-			continue
-		case *ast.TypeSwitchStmt:
-			op, cls := typeSwitch(a.info, s)
-			if op == nil || objOf(a.info, op) != env.data || env.typ == nil {
-				a.undec = "type switch on `" + src(op) + "` not understood"
-				return out
-			}
-			var chosen *tsClause
-			for i := range cls {
-				for _, t := range cls[i].Types {
-					if t != nil && types.Identical(t, env.typ) {
-						chosen = &cls[i]
-					}
-				}
-			}
-			if chosen == nil {
-				for i := range cls {
-					if cls[i].Default {
-						chosen = &cls[i]
-					}
-				}
-			}
-			if chosen == nil {
-				continue
-			}
-			sub := env
-			if chosen.Bound != nil {
-				sub = &wenv{paths: map[types.Object]string{}, typ: env.typ, data: env.data}
-				for k, v := range env.paths {
-					sub.paths[k] = v
-				}
-				sub.paths[chosen.Bound] = "$"
-			}
-			out = append(out, a.writerStmts(chosen.Clause.Body, sub, depth)...)
-			continue
-		case *ast.RangeStmt:
-			p := a.pathOf(env, s.X)
-			if p == "" {
-				a.undec = "range over `" + src(s.X) + "` is not over the data being written"
-				return out
-			}
-			if s.Key != nil {
-				if id, ok := s.Key.(*ast.Ident); !ok || id.Name != "_" {
-					// index form: elements addressed as X[i]
-				}
-			}
-			sub := &wenv{paths: map[types.Object]string{}, typ: env.typ, data: env.data}
-			for k, v := range env.paths {
-				sub.paths[k] = v
-			}
-			if s.Value != nil {
-				if o := objOf(a.info, s.Value); o != nil {
-					sub.paths[o] = p + "[]"
-				}
-			}
-			brk, cont, _ := earlyExits(s.Body)
-			if len(brk)+len(cont) > 0 {
-				a.undec = "writer loop has break/continue"
-			}
-			out = append(out, &wnode{kind: "REPEAT", of: p, sub: a.writerStmts(s.Body.List, sub, depth)})
-			continue
-		case *ast.ForStmt:
-			a.undec = "three-clause loop in a writer is not modelled"
-			return out
-		case *ast.ReturnStmt:
-			if len(s.Results) == 1 && (isNilConst(a.info, s.Results[0]) || objOf(a.info, s.Results[0]) != nil) {
-				continue
-			}
-			if len(s.Results) == 1 {
-				if _, isCall := unparen(s.Results[0]).(*ast.CallExpr); !isCall {
-					continue // error value construction
-				}
-			}
-		case *ast.AssignStmt:
-			// constant assignments (type code) emit nothing
-			if len(s.Rhs) == 1 {
-				if _, ok := unparen(s.Rhs[0]).(*ast.CallExpr); !ok {
-					continue
-				}
-			}
-		}
-		call := a.emitCall(st)
-		if call == nil {
-			if is, ok := st.(*ast.IfStmt); ok && is.Init == nil {
-				// if err != nil { return err }
-				continue
-			}
-			a.undec = "statement `" + src(st) + "` in a writer is not understood"
-			return out
-		}
-		f := callee(a.info, call)
-		switch {
-		case isBinaryRW(f, "Write") && len(call.Args) == 3:
-			x := call.Args[2]
-			t := a.info.TypeOf(x)
-			bt, _ := t.Underlying().(*types.Basic)
-			switch {
-			case bt != nil && bt.Kind() == types.Uint8:
-				out = append(out, &wnode{kind: "U8"})
-			case bt != nil && bt.Kind() == types.Uint32:
-				// uint32(len(P)) or the code variable
-				if cv, ok := unparen(x).(*ast.CallExpr); ok && len(cv.Args) == 1 {
-					if la := lenArg(a.info, cv.Args[0]); la != nil {
-						p := a.pathOf(env, la)
-						if p == "" {
-							a.undec = "count `" + src(x) + "` is not the length of the data being written"
-						}
-						out = append(out, &wnode{kind: "COUNT", of: p})
-						continue
-					}
-				}
-				if objOf(a.info, x) != nil {
-					out = append(out, &wnode{kind: "CODE"})
-					continue
-				}
-				a.undec = "uint32 value `" + src(x) + "` is neither a count nor the type code"
-			case isPointT(t):
-				out = append(out, &wnode{kind: "POINT", of: a.pathOf(env, x)})
-			case isPointsT(t):
-				out = append(out, &wnode{kind: "POINTS", of: a.pathOf(env, x)})
-			default:
-				a.undec = "binary.Write of `" + src(x) + "` (" + t.String() + ") is not a WKB primitive"
-			}
-		case f == a.write && len(call.Args) == 3:
-			out = append(out, &wnode{kind: "WRITE", of: a.pathOf(env, call.Args[2])})
-		case f != nil && a.c.P.Decl(f) != nil && len(call.Args) >= 3:
-			// helper writer(w, order, data): inline
-			cfd := a.c.P.Decl(f)
-			ps := paramVars(a.info, cfd.Type)
-			sub := &wenv{paths: map[types.Object]string{}}
-			dataIdx := len(ps) - 1
-			if ps[dataIdx] != nil {
-				p := a.pathOf(env, call.Args[dataIdx])
-				if p == "" {
-					a.undec = "helper `" + f.Name() + "` is not given the data being written"
-				}
-				sub.paths[ps[dataIdx]] = p
-			}
-			out = append(out, a.writerTree(f, sub, depth+1)...)
-		default:
-			a.undec = "call `" + src(call) + "` in a writer is not understood"
-			return out
-		}
-		// a `return CALL` ends the sequence
-		if _, isRet := st.(*ast.ReturnStmt); isRet {
-			return out
-		}
-	}
-	return out
-}
-
-func specWriter(tn string) string {
-	head := "U8 CODE "
-	switch tn {
-	case "Point":
-		return head + "POINT($)"
-	case "LineString":
-		return head + "COUNT($) POINTS($)"
-	case "Polygon":
-		return head + "COUNT($) REPEAT($){COUNT($[]) POINTS($[])}"
-	default:
-		return head + "COUNT($) REPEAT($){WRITE($[])}"
-	}
-}
-
-func (a *c05) layoutWriters() {
-	c := a.c
-	wfd := c.P.Decl(a.write)
-	ps := paramVars(a.info, wfd.Type)
-	data := ps[len(ps)-1]
-	for _, tn := range wkbTypeNames() {
-		cons := "encoding/wkb.Write#layout(" + tn + ")"
-		t := c.P.NamedType("geom", tn)
-		if t == nil {
-			c.Unk("C05.R1", cons, token.NoPos, "geom.%s does not resolve", tn)
-			continue
-		}
-		a.undec = ""
-		env := &wenv{paths: map[types.Object]string{data: "$"}, typ: t, data: data}
-		tree := treeString(a.writerTree(a.write, env, 0))
-		want := specWriter(tn)
-		switch {
-		case a.undec != "":
-			c.Unk("C05.R1", cons, wfd.Pos(), "%s (extracted so far: %s)", a.undec, tree)
-		case tree == want:
-			c.OK("C05.R1", cons, wfd.Pos(), "%s", tree)
-		default:
-			c.Bad("C05.R1", cons, wfd.Pos(), "bytes written for a geom.%s are laid out as [%s], OGC layout is [%s]", tn, tree, want)
-		}
-		c.Evals(1)
-	}
-	// Point field order: struct definition order X then Y (binary.Write emits fields in order)
-	pt := c.P.NamedType("geom", "Point")
-	if st, ok := pt.Underlying().(*types.Struct); ok {
-		good := st.NumFields() == 2 && st.Field(0).Name() == "X" && st.Field(1).Name() == "Y" && isFloat64(st.Field(0).Type()) && isFloat64(st.Field(1).Type())
-		if good {
-			c.OK("C05.R1", "geom.Point#fields", pt.Obj().Pos(), "struct{X, Y float64}: encoding/binary transfers X then Y, 8 bytes each")
-		} else {
-			c.Bad("C05.R1", "geom.Point#fields", pt.Obj().Pos(), "geom.Point is not struct{X, Y float64}: encoding/binary would emit a different coordinate layout")
-		}
-	}
 }
 
 // ---------------------------------------------------------------- R1 readers
@@ -757,496 +78,7 @@ type renv struct {
 	slices map[types.Object]string // []Point variables → their length expression (source)
 }
 
-// clampHelper: f(n uint32) int with `if n > C { return C }; return int(n)` (0 < f(n) <= n for n > 0).
-func (a *c05) clampHelper(f *types.Func) bool {
-	fd := a.c.P.Decl(f)
-	if fd == nil || len(fd.Body.List) != 2 {
-		return false
-	}
-	ps := paramVars(a.info, fd.Type)
-	if len(ps) != 1 || ps[0] == nil {
-		return false
-	}
-	is, ok := fd.Body.List[0].(*ast.IfStmt)
-	if !ok || is.Else != nil || len(is.Body.List) != 1 {
-		return false
-	}
-	cond, ok := unparen(is.Cond).(*ast.BinaryExpr)
-	if !ok || (cond.Op != token.GTR && cond.Op != token.GEQ) || objOf(a.info, cond.X) != ps[0] {
-		return false
-	}
-	lim, ok := constInt(a.info, cond.Y)
-	if !ok || lim <= 0 {
-		return false
-	}
-	r1, ok := is.Body.List[0].(*ast.ReturnStmt)
-	if !ok || len(r1.Results) != 1 {
-		return false
-	}
-	rv, ok := constInt(a.info, r1.Results[0])
-	if !ok || rv <= 0 || rv > lim {
-		return false
-	}
-	r2, ok := fd.Body.List[1].(*ast.ReturnStmt)
-	if !ok || len(r2.Results) != 1 {
-		return false
-	}
-	conv, ok := unparen(r2.Results[0]).(*ast.CallExpr)
-	return ok && len(conv.Args) == 1 && objOf(a.info, conv.Args[0]) == ps[0]
-}
-
-func (a *c05) readerTree(fn *types.Func, depth int) []*wnode {
-	fd := a.c.P.Decl(fn)
-	if fd == nil || depth > 6 {
-		a.undec = "cannot follow " + fn.Name()
-		return nil
-	}
-	env := &renv{counts: map[types.Object]bool{}, slices: map[types.Object]string{}}
-	return a.readerStmts(fd.Body.List, env, depth)
-}
-
-// countedLoop recognises `for i := 0; i < N; i++` with N a count variable.
-func (a *c05) countedLoop(fs *ast.ForStmt, env *renv) (types.Object, bool) {
-	init, ok := fs.Init.(*ast.AssignStmt)
-	if !ok || len(init.Lhs) != 1 || len(init.Rhs) != 1 {
-		return nil, false
-	}
-	iv := objOf(a.info, init.Lhs[0])
-	if k, ok := constInt(a.info, init.Rhs[0]); !ok || k != 0 || iv == nil {
-		return nil, false
-	}
-	cond, ok := unparen(fs.Cond).(*ast.BinaryExpr)
-	if !ok || cond.Op != token.LSS || objOf(a.info, cond.X) != iv {
-		return nil, false
-	}
-	n := objOf(a.info, cond.Y)
-	if n == nil || !env.counts[n] {
-		return nil, false
-	}
-	post, ok := fs.Post.(*ast.IncDecStmt)
-	if !ok || post.Tok != token.INC || objOf(a.info, post.X) != iv {
-		return nil, false
-	}
-	sc := newFnScope(a.info, fs.Body)
-	if sc.writtenIn(iv, fs.Body) || sc.writtenIn(n, fs.Body) {
-		return nil, false
-	}
-	return n, true
-}
-
-// chunkLoop recognises
-//
-//	for rem := N; rem > 0; { chunk := make([]Point, clamp(rem)); READ(&chunk); dst = append(dst, chunk...); rem -= uint32(len(chunk)) }
-//
-// which reads exactly N points.
-func (a *c05) chunkLoop(fs *ast.ForStmt, env *renv) (types.Object, bool) {
-	init, ok := fs.Init.(*ast.AssignStmt)
-	if !ok || len(init.Lhs) != 1 || len(init.Rhs) != 1 || fs.Post != nil {
-		return nil, false
-	}
-	rem := objOf(a.info, init.Lhs[0])
-	n := objOf(a.info, init.Rhs[0])
-	if rem == nil || n == nil || !env.counts[n] {
-		return nil, false
-	}
-	cond, ok := unparen(fs.Cond).(*ast.BinaryExpr)
-	if !ok || cond.Op != token.GTR || objOf(a.info, cond.X) != rem {
-		return nil, false
-	}
-	if k, ok := constInt(a.info, cond.Y); !ok || k != 0 {
-		return nil, false
-	}
-	var chunk types.Object
-	step := 0
-	for _, st := range fs.Body.List {
-		switch s := st.(type) {
-		case *ast.AssignStmt:
-			if len(s.Lhs) != 1 || len(s.Rhs) != 1 {
-				return nil, false
-			}
-			lhs := objOf(a.info, s.Lhs[0])
-			switch {
-			case step == 0 && s.Tok == token.DEFINE:
-				mk, ok := unparen(s.Rhs[0]).(*ast.CallExpr)
-				if !ok || builtinName(a.info, mk) != "make" || len(mk.Args) != 2 || !isPointsT(a.info.TypeOf(mk.Args[0])) {
-					return nil, false
-				}
-				cl, ok := unparen(mk.Args[1]).(*ast.CallExpr)
-				if !ok || len(cl.Args) != 1 || objOf(a.info, cl.Args[0]) != rem {
-					return nil, false
-				}
-				if f := callee(a.info, cl); f == nil || !a.clampHelper(f) {
-					return nil, false
-				}
-				chunk = lhs
-				step = 1
-			case step == 2 && s.Tok == token.ASSIGN:
-				ap, ok := unparen(s.Rhs[0]).(*ast.CallExpr)
-				if !ok || builtinName(a.info, ap) != "append" || len(ap.Args) != 2 || !ap.Ellipsis.IsValid() || objOf(a.info, ap.Args[0]) != lhs || objOf(a.info, ap.Args[1]) != chunk {
-					return nil, false
-				}
-				step = 3
-			case step == 3 && s.Tok == token.SUB_ASSIGN && lhs == rem:
-				cv, ok := unparen(s.Rhs[0]).(*ast.CallExpr)
-				if !ok || len(cv.Args) != 1 {
-					return nil, false
-				}
-				la := lenArg(a.info, cv.Args[0])
-				if la == nil || objOf(a.info, la) != chunk {
-					return nil, false
-				}
-				step = 4
-			default:
-				return nil, false
-			}
-		case *ast.IfStmt:
-			call := a.emitCall(s)
-			if step != 1 || call == nil || !isBinaryRW(callee(a.info, call), "Read") || len(call.Args) != 3 {
-				return nil, false
-			}
-			u, ok := unparen(call.Args[2]).(*ast.UnaryExpr)
-			if !ok || u.Op != token.AND || objOf(a.info, u.X) != chunk {
-				return nil, false
-			}
-			step = 2
-		default:
-			return nil, false
-		}
-	}
-	return n, step == 4
-}
-
-func (a *c05) readerStmts(list []ast.Stmt, env *renv, depth int) []*wnode {
-	var out []*wnode
-	for _, st := range list {
-		switch s := st.(type) {
-		case *ast.DeclStmt, *ast.ReturnStmt, *ast.SwitchStmt, *ast.ExprStmt:
-			continue
-		case *ast.ForStmt:
-			if n, ok := a.countedLoop(s, env); ok {
-				brk, cont, _ := earlyExits(s.Body)
-				if len(brk)+len(cont) > 0 {
-					a.undec = "member loop has break/continue"
-				}
-				out = append(out, &wnode{kind: "REPEAT", of: n.Name(), sub: a.readerStmts(s.Body.List, env, depth)})
-				continue
-			}
-			if n, ok := a.chunkLoop(s, env); ok {
-				out = append(out, &wnode{kind: "POINTS", of: n.Name()})
-				continue
-			}
-			a.undec = "loop `for " + src(s.Init) + "; " + src(s.Cond) + "; …` is neither a counted member loop nor the bounded chunk loop"
-			return out
-		case *ast.RangeStmt:
-			a.undec = "range loop in a reader is not modelled"
-			return out
-		case *ast.AssignStmt:
-			if len(s.Rhs) == 1 {
-				call, isCall := unparen(s.Rhs[0]).(*ast.CallExpr)
-				if !isCall {
-					continue
-				}
-				if b := builtinName(a.info, call); b == "make" || b == "append" {
-					if b == "make" && len(call.Args) >= 2 && isPointsT(a.info.TypeOf(call.Args[0])) {
-						if o := objOf(a.info, s.Lhs[0]); o != nil {
-							env.slices[o] = src(call.Args[1])
-						}
-					}
-					continue
-				}
-				if tv, ok := a.info.Types[call.Fun]; ok && tv.IsType() {
-					continue
-				}
-			} else {
-				continue
-			}
-		case *ast.IfStmt:
-			if s.Init == nil {
-				// if !ok { return … } / if err != nil {…}: follow both arms for nested reads
-				out = append(out, a.readerStmts(s.Body.List, env, depth)...)
-				if s.Else != nil {
-					if eb, ok := s.Else.(*ast.BlockStmt); ok {
-						out = append(out, a.readerStmts(eb.List, env, depth)...)
-					}
-				}
-				continue
-			}
-		}
-		call := a.emitCall(st)
-		if call == nil {
-			continue
-		}
-		f := callee(a.info, call)
-		switch {
-		case isBinaryRW(f, "Read") && len(call.Args) == 3:
-			u, ok := unparen(call.Args[2]).(*ast.UnaryExpr)
-			if !ok || u.Op != token.AND {
-				a.undec = "binary.Read into `" + src(call.Args[2]) + "`"
-				return out
-			}
-			o := objOf(a.info, u.X)
-			t := a.info.TypeOf(u.X)
-			bt, _ := t.Underlying().(*types.Basic)
-			switch {
-			case bt != nil && bt.Kind() == types.Uint8:
-				out = append(out, &wnode{kind: "U8"})
-			case bt != nil && bt.Kind() == types.Uint32 && o != nil:
-				env.counts[o] = true
-				out = append(out, &wnode{kind: "COUNT", of: o.Name()})
-			case isPointT(t):
-				out = append(out, &wnode{kind: "POINT", of: "$"})
-			case isPointsT(t) && o != nil && env.slices[o] != "":
-				out = append(out, &wnode{kind: "POINTS", of: env.slices[o]})
-			default:
-				a.undec = "binary.Read into `" + src(u.X) + "` (" + t.String() + ") is not a WKB primitive"
-				return out
-			}
-		case f == a.read:
-			out = append(out, &wnode{kind: "READ", of: "$[]"})
-		case f != nil && a.c.P.Decl(f) != nil && f.Pkg().Path() == a.read.Pkg().Path():
-			out = append(out, a.readerTree(f, depth+1)...)
-		default:
-			// conversions, error constructors …
-		}
-		// arms of `if x, err := CALL; err == nil {A} else {B}`
-		if is, ok := st.(*ast.IfStmt); ok && is.Init != nil {
-			out = append(out, a.readerStmts(is.Body.List, env, depth)...)
-			if eb, ok := is.Else.(*ast.BlockStmt); ok {
-				out = append(out, a.readerStmts(eb.List, env, depth)...)
-			}
-		}
-	}
-	return out
-}
-
-// normalise count variable names to n0, n1, … in order of first appearance
-func normCounts(s string, ns []*wnode) string {
-	names := map[string]string{}
-	var walk func(ns []*wnode)
-	walk = func(ns []*wnode) {
-		for _, n := range ns {
-			if n.kind == "COUNT" {
-				if _, ok := names[n.of]; !ok {
-					names[n.of] = fmt.Sprintf("n%d", len(names))
-				}
-			}
-			walk(n.sub)
-		}
-	}
-	walk(ns)
-	var render func(ns []*wnode) string
-	render = func(ns []*wnode) string {
-		var ss []string
-		for _, n := range ns {
-			of := n.of
-			if r, ok := names[of]; ok {
-				of = r
-			}
-			switch n.kind {
-			case "REPEAT":
-				ss = append(ss, "REPEAT("+of+"){"+render(n.sub)+"}")
-			case "U8", "CODE":
-				ss = append(ss, n.kind)
-			default:
-				ss = append(ss, n.kind+"("+of+")")
-			}
-		}
-		return strings.Join(ss, " ")
-	}
-	return render(ns)
-}
-
-func specReader(tn string) string {
-	switch tn {
-	case "Point":
-		return "POINT($)"
-	case "LineString":
-		return "COUNT(n0) POINTS(n0)"
-	case "Polygon":
-		return "COUNT(n0) REPEAT(n0){COUNT(n1) POINTS(n1)}"
-	default:
-		return "COUNT(n0) REPEAT(n0){READ($[])}"
-	}
-}
-
-func (a *c05) layoutReaders() {
-	c := a.c
-	// Read itself: U8 flag, then the code, then dispatch
-	rfd := c.P.Decl(a.read)
-	a.undec = ""
-	head := normCounts("", a.readerTree(a.read, 0))
-	if a.undec != "" {
-		c.Unk("C05.R1", "encoding/wkb.Read#header", rfd.Pos(), "%s", a.undec)
-	} else if head == "U8 COUNT(n0)" {
-		// dispatch through the registry with the code just read
-		okDispatch := false
-		ast.Inspect(rfd.Body, func(n ast.Node) bool {
-			if ix, ok := n.(*ast.IndexExpr); ok {
-				if _, isMap := a.info.TypeOf(ix.X).Underlying().(*types.Map); isMap {
-					if o := objOf(a.info, ix.Index); o != nil {
-						if b, ok := o.Type().Underlying().(*types.Basic); ok && b.Kind() == types.Uint32 {
-							okDispatch = true
-						}
-					}
-				}
-			}
-			return true
-		})
-		if okDispatch {
-			c.OK("C05.R1", "encoding/wkb.Read#header", rfd.Pos(), "U8 flag · U32 type code · body by registry[code]")
-		} else {
-			c.Bad("C05.R1", "encoding/wkb.Read#header", rfd.Pos(), "the type code read is not used to select the reader")
-		}
-	} else {
-		c.Bad("C05.R1", "encoding/wkb.Read#header", rfd.Pos(), "element header is read as [%s], OGC header is [U8 flag, U32 type code]", head)
-	}
-	for _, tn := range wkbTypeNames() {
-		code := wkbCodes[tn]
-		cons := fmt.Sprintf("encoding/wkb#reader-layout(%s)", tn)
-		fn := a.readers[code]
-		if fn == nil {
-			c.Unk("C05.R1", cons, token.NoPos, "no reader registered for code %d", code)
-			continue
-		}
-		a.undec = ""
-		tree := a.readerTree(fn, 0)
-		got := normCounts("", tree)
-		want := specReader(tn)
-		switch {
-		case a.undec != "":
-			c.Unk("C05.R1", cons, c.P.Decl(fn).Pos(), "%s (extracted so far: %s)", a.undec, got)
-		case got == want:
-			c.OK("C05.R1", cons, c.P.Decl(fn).Pos(), "%s", got)
-		default:
-			c.Bad("C05.R1", cons, c.P.Decl(fn).Pos(), "the body of a %s is read as [%s], OGC layout is [%s]", tn, got, want)
-		}
-		c.Evals(1)
-	}
-}
-
 // ---------------------------------------------------------------- R2
-
-func (a *c05) byteOrder() {
-	c := a.c
-	p := pk(c, "encoding/wkb")
-	n := 0
-	for _, fn := range c.P.RepoFuncs() {
-		if c.P.DeclPkg(fn) != p {
-			continue
-		}
-		fd := c.P.Decl(fn)
-		if fd.Body == nil {
-			continue
-		}
-		var orderParam types.Object
-		for _, pv := range paramVars(a.info, fd.Type) {
-			if pv != nil && isByteOrderType(pv.Type()) {
-				orderParam = pv
-			}
-		}
-		sc := newFnScope(a.info, fd.Body)
-		perCallee := map[string]int{}
-		ast.Inspect(fd.Body, func(nd ast.Node) bool {
-			call, ok := nd.(*ast.CallExpr)
-			if !ok {
-				return true
-			}
-			f := callee(a.info, call)
-			if f == nil {
-				// dynamic call (registry reader): find ByteOrder-typed args
-				if sig, ok := a.info.TypeOf(call.Fun).Underlying().(*types.Signature); ok {
-					for i := 0; i < sig.Params().Len() && i < len(call.Args); i++ {
-						if isByteOrderType(sig.Params().At(i).Type()) {
-							n++
-							a.checkOrderArg(fn, fd, sc, orderParam, call, i, "registry-reader", perCallee, false)
-						}
-					}
-				}
-				return true
-			}
-			sig := f.Type().(*types.Signature)
-			for i := 0; i < sig.Params().Len() && i < len(call.Args); i++ {
-				if !isByteOrderType(sig.Params().At(i).Type()) {
-					continue
-				}
-				single := false
-				if (isBinaryRW(f, "Read") || isBinaryRW(f, "Write")) && len(call.Args) == 3 {
-					t := a.info.TypeOf(call.Args[2])
-					if pt, ok := t.(*types.Pointer); ok {
-						t = pt.Elem()
-					}
-					if b, ok := t.Underlying().(*types.Basic); ok && (b.Kind() == types.Uint8 || b.Kind() == types.Int8) {
-						single = true
-					}
-				} else if c.P.Decl(f) == nil {
-					continue // other external functions taking an order (none today)
-				}
-				n++
-				a.checkOrderArg(fn, fd, sc, orderParam, call, i, f.Name(), perCallee, single)
-			}
-			return true
-		})
-	}
-	_ = n
-}
-
-func (a *c05) checkOrderArg(fn *types.Func, fd *ast.FuncDecl, sc *fnScope, orderParam types.Object, call *ast.CallExpr, i int, calleeName string, perCallee map[string]int, singleByte bool) {
-	c := a.c
-	perCallee[calleeName]++
-	cons := fmt.Sprintf("%s#%s", c.P.FuncName(fn), calleeName)
-	if perCallee[calleeName] > 1 {
-		cons = fmt.Sprintf("%s#%d", cons, perCallee[calleeName])
-	}
-	arg := unparen(call.Args[i])
-	o := objOf(a.info, arg)
-	switch {
-	case singleByte:
-		c.OK("C05.R2", cons, call.Pos(), "single-byte transfer: byte order is irrelevant")
-	case o != nil && o == orderParam:
-		c.OK("C05.R2", cons, call.Pos(), "passes the function's own byte-order parameter")
-	case o != nil && orderParam == nil && a.decodedOrderVar(fd, sc, o):
-		c.OK("C05.R2", cons, call.Pos(), "uses the order decoded from this element's own flag byte")
-	default:
-		c.Bad("C05.R2", cons, call.Pos(), "`%s` is given byte order `%s`, which is not the order of the element being processed (a constant or foreign order makes one of the two byte orders unreadable / mis-written)", src(call.Fun), src(arg))
-	}
-}
-
-// decodedOrderVar: local ByteOrder variable assigned only inside the cases of a
-// switch on the uint8 flag variable.
-func (a *c05) decodedOrderVar(fd *ast.FuncDecl, sc *fnScope, o types.Object) bool {
-	if _, isVar := o.(*types.Var); !isVar || !isByteOrderType(o.Type()) {
-		return false
-	}
-	okAll := true
-	n := 0
-	ast.Inspect(fd.Body, func(nd ast.Node) bool {
-		as, ok := nd.(*ast.AssignStmt)
-		if !ok {
-			return true
-		}
-		for _, l := range as.Lhs {
-			if objOf(a.info, l) != o {
-				continue
-			}
-			n++
-			inFlagSwitch := false
-			for _, anc := range enclosing(fd.Body, as) {
-				if sw, ok := anc.(*ast.SwitchStmt); ok && sw.Tag != nil {
-					if tv := objOf(a.info, sw.Tag); tv != nil {
-						if b, ok := tv.Type().Underlying().(*types.Basic); ok && b.Kind() == types.Uint8 {
-							inFlagSwitch = true
-						}
-					}
-				}
-			}
-			if !inFlagSwitch {
-				okAll = false
-			}
-		}
-		return true
-	})
-	return okAll && n > 0
-}
 
 // ---------------------------------------------------------------- R4
 
